@@ -71,10 +71,12 @@ $(BUILD)/obj/%.o: $(ROOT)/sim/%.c $(LIBHDR) $(TOOLCHAIN_H)
 $(BUILD)/bin/regsim: $(BUILD)/obj/regmacros.o
 $(BUILD)/bin/slipsim: $(BUILD)/obj/slipmacros.o
 
+# regpsim makes the C library's malloc fail on demand underneath the library's own ufw_malloc() (link-time seam, nothing in /repo changes)
+$(BUILD)/bin/regpsim: EXTRA_LD := -Wl,--wrap=malloc
 $(BUILD)/bin/%: $(BUILD)/obj/%.o $(BUILD)/obj/hdrmacros.o $(LIBOBJ)
 	@mkdir -p $(dir $@)
 	@echo "  LD  $@"
-	@$(CXX) $^ $(LDFLAGS) -o $@
+	@$(CXX) $^ $(LDFLAGS) $(EXTRA_LD) -o $@
 
 clean:
 	rm -rf $(ROOT)/build
